@@ -647,7 +647,7 @@ func main() {
 		os.MkdirAll(filepath.Join(ev.VerifDir, ".work"), 0o755)
 		raceLog := filepath.Join(ev.VerifDir, ".work", fmt.Sprintf("c17-race-%d", os.Getpid()))
 		// canary: the race build must report an unsynchronised counter and must not report a mutex-protected one
-		can := vx.RunWorkers(raceBin, []string{"GORACE=log_path=" + raceLog + " halt_on_error=0", "VX_RACELOG=" + raceLog, "C17_CANARY=1"}, []string{`{"n":0}`}, 1, 60*time.Second)
+		can := vx.RunWorkers(raceBin, []string{"GORACE=log_path=" + raceLog + " halt_on_error=0", "VX_RACELOG=" + raceLog, "C17_CANARY=1"}, []string{`{"n":0}`}, 1, 300*time.Second)
 		if len(can) != 1 || can[0].Broken != "" || len(can[0].Races) != 1 || can[0].Races[0] != "canary: racy=1 locked=0" {
 			c.Broken("race canary failed: %+v", can)
 		}
